@@ -44,7 +44,7 @@ func checkC04(c *hx.Checker) {
 	if thorough {
 		maxBatchRank = 3
 	}
-	c.Rule = fmt.Sprintf("MatMul: operand ranks 1..%d: every (batchA, batchB) pair of Box(rank 0..%d, extents {1,2,3}) (broadcastable and not) x (m,k,n) in {1,2,3}^3 x {matrix, vector} per side x mismatching k; float32 everywhere, the other gate dtypes on a sub-box. "+
+	c.Rule = fmt.Sprintf("MatMul: operand ranks 1..%d: every (batchA, batchB) pair of Box(rank 0..%d, extents {1,2,3}) (broadcastable and not) x (m,k,n) in {1,2,3}^3 x {matrix, vector} per side x mismatching k; float32 everywhere, the other gate dtypes on a sub-box, plus 6 larger MatMul and 6 larger Gemm operand sets (up to 129 / 300 in one dimension) to reach size-dependent kernels. "+
 		"Gemm: transA x transB x (alpha,beta) in {1,0.5,-1,0,2}x{1,2,0,-0.5} x (M,K,N) in {1,2,3}^3 x C in {absent, (), (1), (N), (1,N), (M,1), (M,N), (M) , (N,M), (2,M,N), (1,1)} (valid iff unidirectionally broadcastable), float32 + float64, inner-dimension mismatch. "+
 		"LinearRegressor: targets x features x batch in {1,2,3}^3 x intercepts {absent, per target, single} x X rank {1,2}, wrong feature count, int/double inputs. Scaler: features x batch in {1,2,3}^2 x offset/scale length {F,1,wrong} x X rank 1..3. "+
 		"Operator API + Model.Run (with weights as initializers) on a sub-box; instance-reuse histories. non-trivial = every case; discrimination counters report how many cases separate the true semantics from the swapped ones", maxBatchRank+2, maxBatchRank)
@@ -108,6 +108,10 @@ func checkC04(c *hx.Checker) {
 				}
 			}
 		}
+	}
+	// larger operands: beyond the exhaustive box, to reach size-dependent code paths (blocked / parallel gemm)
+	for _, sp := range [][2][]int{{{70, 65}, {65, 66}}, {{3, 40, 50}, {50, 30}}, {{2, 1, 17, 9}, {3, 9, 33}}, {{129}, {129, 5}}, {{5, 200}, {200}}, {{1, 64, 64}, {64, 64}}} {
+		mm(ref.F32, sp[0], sp[1], "op", nil)
 	}
 	for _, dt := range gateDTs("MatMul", 0) {
 		for _, sp := range [][2][]int{{{2, 3}, {3, 2}}, {{3}, {3, 2}}, {{2, 3}, {3}}, {{3}, {3}}, {{2, 2, 3}, {3, 2}}, {{2, 1, 3}, {2, 3, 1}}, {{1, 2, 2, 3}, {3, 1, 3, 2}}, {{2, 3}, {2, 3}}} {
@@ -201,6 +205,21 @@ func checkC04(c *hx.Checker) {
 					}
 				}
 			}
+		}
+	}
+	for _, big := range [][3]int{{70, 65, 66}, {128, 64, 3}, {5, 300, 7}} {
+		for _, tA := range []bool{false, true} {
+			ash, bsh := []int{big[0], big[1]}, []int{big[2], big[1]}
+			if tA {
+				ash = []int{big[1], big[0]}
+			}
+			A, B, C := linFill(ref.F32, ash, 2), linFill(ref.F32, bsh, 5), linFill(ref.F32, []int{1, big[2]}, 8)
+			attrs := []hx.Attr{hx.AInt("transB", 1), hx.AFloat("alpha", 0.5), hx.AFloat("beta", 2)}
+			if tA {
+				attrs = append(attrs, hx.AInt("transA", 1))
+			}
+			exp, err := ref.Gemm(A, B, C, 0.5, 2, tA, true)
+			jobs = append(jobs, newJob("Gemm", attrs, []*ref.T{A, B, C}, []*ref.T{exp}, err, hx.DCompute, hx.Dot, "op", nil, fmt.Sprintf("large %v tA=%v", big, tA), "large"))
 		}
 	}
 	c.Extra["discrimination"] = map[string]int{"gemm_cases": gemmCases, "differs_if_trans_flags_flipped": discTrans, "differs_if_alpha_beta_swapped": discAB}
